@@ -96,6 +96,8 @@ def run(tier):
     # with a dwz alt file: the raw view lists the units (and DIEs) of the alt file after those of the main file
     for n in ((4, 5) if tier == "quick" else (4, 5, 6)):
         allv += D.gen_forests("altnav", n, wd)
+    # nesting far deeper than a compiler produces (a chain, a chain with a leaf next to every link, two units)
+    allv += D.gen_forests("rawdeep", 136 if tier == "quick" else 200, wd, shards=3)
     bad_model = [v for v in allv if not v["ok"]["raw"]]
     if bad_model:
         vd.observe("model:all_dies_iterator does not visit the pre-order", {"forest": bad_model[0]["forest"]})
